@@ -36,6 +36,10 @@ def make_frames(rng, n):
         else:
             fr, p, _ = streams.rand_frame(rng, kind)
         out.append(fr)
+    # static messages repeat verbatim: some frames are exact repeats of earlier ones
+    for _ in range(rng.choice((0, 1, 2))):
+        if len(out) > 2:
+            out[rng.randrange(1, len(out))] = out[rng.randrange(0, len(out) - 1)]
     return out
 
 
